@@ -1,8 +1,353 @@
 import FtDriver.Json
-open Lean (Json)
+open Lean (Json JsonNumber)
 namespace FtDriver
 open Ft
 
-def handleC13 (_j : Json) : Except String Verdict := throw "C13: not implemented"
+/-! C13 handler: `fromU`, `yaml`, `random` cases (see harness/props/c13.py).
+
+Leaf values are ints or floats that are multiples of 1/8; the driver works with the
+value scaled by 8 (an injective map that respects Python's numeric `==`, so `0.0` and
+`0` are the same value, as they are for `p != default`). -/
+
+namespace C13
+
+def vScale : Nat := 8
+
+/-- a JSON number times `scale`, which must be an integer -/
+def parseScaled (scale : Nat) (j : Json) : Except String Int := do
+  let n ← j.getNum?
+  let num : Int := n.mantissa * (scale : Int)
+  let den : Int := ((10 ^ n.exponent : Nat) : Int)
+  if num % den == 0 then pure (num / den)
+  else throw s!"number {j.compress} is not a multiple of 1/{scale}"
+
+def pVal (j : Json) : Except String Int := parseScaled vScale j
+def jVal (v : Int) : Json := if v % 8 == 0 then jInt (v / 8) else Json.num ⟨v * 125, 3⟩
+
+abbrev N := Nest Int
+abbrev TN := Tree Nat Int
+abbrev TY := Tree YCoord Int
+
+def parseNest : (d : Nat) → Json → Except String (N d)
+  | 0, j => pVal j
+  | d + 1, j => do
+    let arr ← asList j
+    let r ← arr.mapM (parseNest d)
+    pure (show List (N d) from r)
+
+def nestToJson : (d : Nat) → N d → Json
+  | 0, v => jVal (show Int from v)
+  | d + 1, l => jList ((show List (N d) from l).map (nestToJson d))
+
+def parseTN : (d : Nat) → Json → Except String (TN d)
+  | 0, j => pVal j
+  | d + 1, j => do
+    let arr ← asList j
+    let r ← arr.mapM (fun e => do
+      match (← asList e) with
+      | [c, t] => do pure ((← c.getNat?), (← parseTN d t))
+      | _ => throw "tree: expected [coord, payload]")
+    pure (show List (Nat × TN d) from r)
+
+def tnToJson : (d : Nat) → TN d → Json
+  | 0, v => jVal (show Int from v)
+  | d + 1, f => jList ((show List (Nat × TN d) from f).map (fun e => jList [jNat e.1, tnToJson d e.2]))
+
+def parseYCoord (j : Json) : Except String YCoord :=
+  match j with
+  | Json.arr a => do
+    let l ← a.toList.mapM (·.getInt?)
+    pure (YCoord.tup l)
+  | _ => do pure (YCoord.int (← j.getInt?))
+
+def yCoordToJson : YCoord → Json
+  | .int i => jInt i
+  | .tup l => jInts l
+
+def parseTY : (d : Nat) → Json → Except String (TY d)
+  | 0, j => pVal j
+  | d + 1, j => do
+    let arr ← asList j
+    let r ← arr.mapM (fun e => do
+      match (← asList e) with
+      | [c, t] => do pure ((← parseYCoord c), (← parseTY d t))
+      | _ => throw "tree: expected [coord, payload]")
+    pure (show List (YCoord × TY d) from r)
+
+def tyToJson : (d : Nat) → TY d → Json
+  | 0, v => jVal (show Int from v)
+  | d + 1, f => jList ((show List (YCoord × TY d) from f).map (fun e => jList [yCoordToJson e.1, tyToJson d e.2]))
+
+/-- `{"fiber": {"coords": [...], "payloads": [...]}}` or a scalar -/
+def parseYDict : (d : Nat) → Json → Except String (YDict YCoord Int d)
+  | 0, j => pVal j
+  | d + 1, j => do
+    let f ← field j "fiber"
+    let cs ← (← fArr f "coords").mapM parseYCoord
+    let ps ← (← fArr f "payloads").mapM (parseYDict d)
+    pure (show List YCoord × List (YDict YCoord Int d) from (cs, ps))
+
+def yDictToJson : (d : Nat) → YDict YCoord Int d → Json
+  | 0, v => jVal (show Int from v)
+  | d + 1, y =>
+    let y' := (show List YCoord × List (YDict YCoord Int d) from y)
+    Json.mkObj [("fiber", Json.mkObj [("coords", jList (y'.1.map yCoordToJson)),
+                                      ("payloads", jList (y'.2.map (yDictToJson d)))])]
+
+def listBeq {α : Type} (eq : α → α → Bool) : List α → List α → Bool
+  | [], [] => true
+  | x :: xs, y :: ys => eq x y && listBeq eq xs ys
+  | _, _ => false
+
+def nestBeq : (d : Nat) → N d → N d → Bool
+  | 0, a, b => decide ((show Int from a) = (show Int from b))
+  | d + 1, a, b => listBeq (nestBeq d) (show List (N d) from a) (show List (N d) from b)
+
+def treeBeq {κ : Type} [DecidableEq κ] : (d : Nat) → Tree κ Int d → Tree κ Int d → Bool
+  | 0, a, b => decide ((show Int from a) = (show Int from b))
+  | d + 1, a, b => listBeq (fun x y => decide (x.1 = y.1) && treeBeq d x.2 y.2)
+                     (show List (κ × Tree κ Int d) from a) (show List (κ × Tree κ Int d) from b)
+
+def yDictBeq : (d : Nat) → YDict YCoord Int d → YDict YCoord Int d → Bool
+  | 0, a, b => decide ((show Int from a) = (show Int from b))
+  | d + 1, a, b =>
+    let a' := (show List YCoord × List (YDict YCoord Int d) from a)
+    let b' := (show List YCoord × List (YDict YCoord Int d) from b)
+    decide (a'.1 = b'.1) && listBeq (yDictBeq d) a'.2 b'.2
+
+def optBeq {α : Type} (eq : α → α → Bool) : Option α → Option α → Bool
+  | none, none => true
+  | some a, some b => eq a b
+  | _, _ => false
+
+/-- `null` → none -/
+def optField {α : Type} (j : Json) (k : String) (p : Json → Except String α) : Except String (Option α) :=
+  match j.getObjVal? k with
+  | .ok Json.null => pure none
+  | .ok v => do pure (some (← p v))
+  | .error _ => pure none
+
+def optJson {α : Type} (f : α → Json) : Option α → Json
+  | none => Json.null
+  | some a => f a
+
+def clauses (l : List (String × Bool)) : String :=
+  ",".intercalate ((l.filter (fun c => !c.2)).map (·.1))
+
+def anyEntry (p : Int → Bool) : (d : Nat) → N d → Bool
+  | 0, v => p (show Int from v)
+  | d + 1, l => (show List (N d) from l).any (anyEntry p d)
+
+/-- some proper sub-nest is entirely default -/
+def hasDefaultSub (dflt : Int) : (d : Nat) → N d → Bool
+  | 0, _ => false
+  | d + 1, l => (show List (N d) from l).any (fun x => (decide (d ≥ 1) && allDefault dflt d x) || hasDefaultSub dflt d x)
+
+/-! #### fromU -/
+
+def handleFromU (j : Json) : Except String Verdict := do
+  let dep ← fNat j "d"
+  let dflt ← pVal (← field j "dflt")
+  let dims ← (← fArr j "dims").mapM (·.getNat?)
+  let kind ← fStr j "kind"
+  match dep with
+  | 0 => return { agree := true, spec := true, tags := ["OUT_OF_MODEL"] }
+  | d + 1 =>
+    let nest ← parseNest (d + 1) (← field j "nest")
+    -- precondition of the property: rectangular, every dimension at least 1
+    if !(rectB (d + 1) dims nest) || dims.any (· == 0) then
+      return { agree := true, spec := true, tags := ["OUT_OF_MODEL"] }
+    let impl ← field j "impl"
+    let iTree ← optField impl "tree" (parseTN (d + 1))
+    let iShape ← optField impl "shape" (fun s => do (← asList s).mapM (·.getNat?))
+    let iUnc ← optField impl "unc" (parseNest (d + 1))
+    let iUnc0 ← optField impl "unc0" (parseNest (d + 1))
+    -- model
+    let mTree := fromUncompressed dflt d nest
+    let mShape := if kind == "tensor" then calcShape d nest else fiberShape dflt d nest
+    let mUnc := uncompress dflt d dims mTree
+    let mUnc0 := if mShape.length == d + 1 then uncompress dflt d mShape mTree else none
+    let agree := optBeq (treeBeq (d + 1)) iTree (some mTree) && decide (iShape = some mShape) &&
+                 optBeq (nestBeq (d + 1)) iUnc mUnc && optBeq (nestBeq (d + 1)) iUnc0 mUnc0
+    -- the property, evaluated on the implementation's observation
+    let cl := match iTree with
+      | none => [("built", false)]
+      | some t =>
+        [("sorted", wfB (d + 1) t),
+         ("no-explicit-default", noEmptyB dflt (d + 1) t),
+         ("content", decide (content dflt (d + 1) t = nestContent dflt (d + 1) nest)),
+         ("shape", decide (iShape = some dims)),
+         ("uncompress", optBeq (nestBeq (d + 1)) iUnc (some nest)),
+         ("uncompress-noarg", optBeq (nestBeq (d + 1)) iUnc0 (some nest))]
+    let isAll := allDefault dflt (d + 1) nest
+    let tags :=
+      (if isAll then ["allDefault"] else []) ++
+      (if !isAll && anyEntry (· == dflt) (d + 1) nest then ["mixed"] else []) ++
+      (if !isAll && !anyEntry (· == dflt) (d + 1) nest then ["dense"] else []) ++
+      (if !isAll && hasDefaultSub dflt (d + 1) nest then ["allDefaultSub"] else []) ++
+      (if mUnc.isNone then ["uncompressRaises"] else []) ++
+      [s!"depth{d + 1}", kind]
+    pure { agree, spec := cl.all (·.2), why := clauses cl, tags,
+           model := Json.mkObj [("tree", tnToJson (d + 1) mTree), ("shape", jList (mShape.map jNat)),
+                                ("unc", optJson (nestToJson (d + 1)) mUnc),
+                                ("unc0", optJson (nestToJson (d + 1)) mUnc0)] }
+
+/-! #### yaml / dict -/
+
+structure Loaded (d : Nat) where
+  tree : TY d
+  rankIds : List String
+  shape : List YCoord
+  name : String
+
+def parseLoaded (d : Nat) (j : Json) : Except String (Loaded d) := do
+  let tree ← parseTY d (← field j "tree")
+  let rankIds ← (← fArr j "rank_ids").mapM (·.getStr?)
+  let shape ← (← fArr j "shape").mapM parseYCoord
+  let name ← fStr j "name"
+  pure { tree, rankIds, shape, name }
+
+def loadedToJson (d : Nat) (l : Loaded d) : Json :=
+  Json.mkObj [("tree", tyToJson d l.tree), ("rank_ids", jList (l.rankIds.map Json.str)),
+              ("shape", jList (l.shape.map yCoordToJson)), ("name", Json.str l.name)]
+
+def loadedBeq (d : Nat) (a b : Loaded d) : Bool :=
+  treeBeq d a.tree b.tree && decide (a.rankIds = b.rankIds) && decide (a.shape = b.shape) &&
+  decide (a.name = b.name)
+
+def hasExplicitEmpty (dflt : Int) : (d : Nat) → TY d → Bool
+  | 0, _ => false
+  | d + 1, f => (show List (YCoord × TY d) from f).any (fun e => isEmpty dflt d e.2 || hasExplicitEmpty dflt d e.2)
+
+def handleYaml (j : Json) : Except String Verdict := do
+  let kind ← fStr j "kind"
+  let isTensor := kind == "tensor"
+  let orig ← field j "orig"
+  if orig == Json.null then
+    -- the object could not even be constructed by the implementation
+    return { agree := true, spec := false, why := "built", tags := ["buildFailed", kind] }
+  let dflt ← pVal (← field orig "dflt")
+  let d ← fNat orig "depth"
+  let o ← parseLoaded d orig
+  let impl ← field j "impl"
+  let iDict ← optField impl "dict" (parseYDict d)
+  let iRt ← optField impl "dict_rt" (parseTY d)
+  let iDictEq ← (← field impl "dict_eq").getBool?
+  let iLoaded ← optField impl "loaded" (parseLoaded d)
+  let iEq ← (← field impl "eq").getBool?
+  let iEqRev ← (← field impl "eq_rev").getBool?
+  -- model
+  let mDict := fiber2dict d o.tree
+  let mRt := dict2fiber d mDict
+  let mDictEq := match mRt with
+    | some r => eqB 0 dflt d r o.tree && eqB dflt 0 d o.tree r
+    | none => false
+  let rep : TRep YCoord Int d := { rankIds := o.rankIds, shape := o.shape, name := o.name, root := o.tree }
+  let mLoaded : Option (Loaded d) :=
+    if isTensor then
+      (tensorYamlRoundtrip YCoord.plain rep).map
+        (fun r => { tree := r.root, rankIds := r.rankIds, shape := r.shape, name := r.name })
+    else
+      match d with
+      | 0 => none
+      | d' + 1 => (fiberYamlRoundtrip YCoord.plain d' o.tree).map
+                    (fun r => { tree := r, rankIds := [], shape := [], name := "" })
+  let ldflt := loadedLeafDefault (0 : Int) isTensor d dflt
+  let (mEq, mEqRev) := match mLoaded with
+    | some l => (decide (l.rankIds = o.rankIds) && eqB ldflt dflt d l.tree o.tree,
+                 decide (o.rankIds = l.rankIds) && eqB dflt ldflt d o.tree l.tree)
+    | none => (false, false)
+  let agree := optBeq (yDictBeq d) iDict (some mDict) && optBeq (treeBeq d) iRt mRt &&
+               (iDictEq == mDictEq) && optBeq (loadedBeq d) iLoaded mLoaded &&
+               (iEq == mEq) && (iEqRev == mEqRev)
+  -- the property on the implementation's observation
+  let cl := [("dict-roundtrip-equal", iDictEq)] ++
+    (match iLoaded with
+     | none => [("yaml-loads", false)]
+     | some l => [("yaml-equal", iEq && iEqRev),
+                  ("rank-ids", decide (l.rankIds = o.rankIds)),
+                  ("shape", decide (l.shape = o.shape)),
+                  ("name", decide (l.name = o.name))])
+  let tags :=
+    (if d == 0 then ["rank0"] else []) ++
+    (if d > 0 && !(content dflt d o.tree).isEmpty then ["stored"] else []) ++
+    (if !(allCoords YCoord.plain d o.tree) then ["tupleCoords"] else []) ++
+    (if hasExplicitEmpty dflt d o.tree then ["explicitEmpty"] else []) ++
+    (if o.name != "" then ["named"] else []) ++
+    (if dflt != 0 then ["default!=0"] else []) ++
+    (if mLoaded.isNone then ["loadFails"] else []) ++ [kind, s!"depth{d}"]
+  pure { agree, spec := cl.all (·.2), why := clauses cl, tags,
+         model := Json.mkObj [("dict", yDictToJson d mDict), ("dict_rt", optJson (tyToJson d) mRt),
+                              ("dict_eq", Json.bool mDictEq), ("loaded", optJson (loadedToJson d) mLoaded),
+                              ("eq", Json.bool mEq), ("eq_rev", Json.bool mEqRev)] }
+
+/-! #### random -/
+
+def two53 : Nat := 2 ^ 53
+
+def handleRandom (j : Json) : Except String Verdict := do
+  let kind ← fStr j "kind"
+  let shape ← (← fArr j "shape").mapM (·.getNat?)
+  let dflt ← fInt j "dflt"
+  let interval ← fInt j "interval"
+  let dj ← field j "density"
+  let dens ← match dj with
+    | Json.arr a => a.toList.mapM (fun x => do pure (← parseScaled two53 x).toNat)
+    | _ => do
+      let q ← parseScaled two53 dj
+      pure (List.replicate (shape.length - 1) two53 ++ [q.toNat])
+  let impl ← field j "impl"
+  let us ← (← fArr impl "us").mapM (·.getNat?)
+  let is ← (← fArr impl "is").mapM (·.getInt?)
+  match shape.length with
+  | 0 => return { agree := true, spec := true, tags := ["OUT_OF_MODEL"] }
+  | d + 1 =>
+    -- docstring precondition: with a non-zero default the upper ranks must have density 1
+    let upper := dens.take d
+    if dens.length != d + 1 || (dflt != 0 && upper.any (· < two53)) || interval < 1 then
+      return { agree := true, spec := true, tags := ["OUT_OF_MODEL"] }
+    let iTree ← optField impl "tree" (parseTN (d + 1))
+    let iShape ← optField impl "shape" (fun s => do (← asList s).mapM (·.getNat?))
+    -- tree leaves are parsed scaled by 8 (see `pVal`): scale the integer draws and the default alike
+    let dfltS := dflt * 8
+    let m := fromRandom dfltS d shape dens { us, is := is.map (· * 8) }
+    let mTree := m.map (·.1)
+    let leftover := match m with
+      | some (_, s) => s.us.length + s.is.length
+      | none => 0
+    let agree := optBeq (treeBeq (d + 1)) iTree mTree && leftover == 0 &&
+                 (kind != "tensor" || decide (iShape = some shape))
+    let fullPre := dens.all (· ≥ two53) && !(1 ≤ dflt && dflt ≤ interval)
+    let cl := match iTree with
+      | none => [("built", false)]
+      | some t =>
+        [("sorted", wfB (d + 1) t), ("in-shape", inShapeB (d + 1) shape t),
+         ("full-at-density-1", !fullPre || decide (points dfltS (d + 1) t = allPoints shape)),
+         ("tensor-shape", kind != "tensor" || decide (iShape = some shape))]
+    let nHit := is.length
+    let tags :=
+      (if nHit > 0 then ["hit"] else []) ++
+      (if us.any (fun u => dens.any (fun q => u ≥ q)) then ["miss"] else []) ++
+      (if is.any (· == dflt) then ["dropDefault"] else []) ++
+      (if fullPre then ["full"] else []) ++
+      (match mTree with
+       | some t => if hasExplicitZero (d + 1) t then ["explicitZero"] else []
+       | none => ["modelNone"]) ++ [kind, s!"depth{d + 1}"]
+    pure { agree, spec := cl.all (·.2), why := clauses cl, tags,
+           model := Json.mkObj [("tree", optJson (tnToJson (d + 1)) mTree), ("leftover_draws", jNat leftover)] }
+where
+  hasExplicitZero : (d : Nat) → TN d → Bool
+    | 0, v => decide ((show Int from v) = 0)
+    | d + 1, f => (show List (Nat × TN d) from f).any (fun e => hasExplicitZero d e.2)
+
+end C13
+
+def handleC13 (j : Json) : Except String Verdict := do
+  let op ← fStr j "op"
+  match op with
+  | "fromU" => C13.handleFromU j
+  | "yaml" => C13.handleYaml j
+  | "random" => C13.handleRandom j
+  | _ => throw s!"C13: unknown op {op}"
 
 end FtDriver
